@@ -316,22 +316,16 @@ Section Hierarchy.
   (** The errors of the last region of that function (properties, methods, serialization
       settings, [@abstract] on a constrained primitive) are collected but never returned.
       What happens instead, in the first pass of [translate] (declaration order): an
-      abstract one fails [assert isinstance(parsed_our_type, parse.ConcreteClass)], one
-      with properties or methods violates the pre-conditions of [ConstrainedPrimitive];
+      abstract one fails [assert isinstance(parsed_our_type, parse.ConcreteClass)]
+      wherever it stands; properties or methods (the constructor included) are reported by
+      [_to_constrained_primitive] and the translation stops after the first pass;
       serialization settings are silently ignored. *)
-  Definition first_pass_crash (m : mm) (anc : amap) : option crash_kind :=
-    fold_left (fun acc c =>
-                 match acc with
-                 | Some k => Some k
-                 | None =>
-                     if is_cp m anc (c_name c) then
-                       if c_abstract c then Some AssertionError
-                       else if negb (is_nil (c_props c)) || negb (is_nil (c_methods c))
-                               || match c_ctor c with Some _ => true | None => false end
-                            then Some Violation
-                            else None
-                     else None
-                 end) m None.
+  Definition first_pass_abstract (m : mm) (anc : amap) : bool :=
+    existsb (fun c => is_cp m anc (c_name c) && c_abstract c) m.
+  Definition first_pass_error (m : mm) (anc : amap) : bool :=
+    existsb (fun c => is_cp m anc (c_name c)
+                      && (negb (is_nil (c_props c)) || negb (is_nil (c_methods c))
+                          || match c_ctor c with Some _ => true | None => false end)) m.
 
   (** * Second passes. *)
 
@@ -547,7 +541,8 @@ Section Hierarchy.
        post-condition, which looks up the reported errors ([result[1]]) as class names:
        [must_find_class(<Error>)] raises KeyError *)
     if existsb (cp_error m anc) m then Crash KeyError else
-    match first_pass_crash m anc with Some k => Crash k | None =>
+    if first_pass_abstract m anc then Crash AssertionError else
+    if first_pass_error m anc then Err [] else
     (* _set_inheritances: "No duplicate inheritances" *)
     if existsb (fun c => negb (nodupb (class_bases c))) m then Crash Violation else
     let '(smap, ser_err) := stack_serializations m anc order in
@@ -588,7 +583,7 @@ Section Hierarchy.
                       i_inlined := map (fun x => stmt_prop (id_val x)) (lk n kmap);
                       i_iface := match lookup n imap_if with Some (Some l) => Some l | _ => None end;
                       i_wmt := if cp then None else Some (final_wmt smap n) |}) m |}
-    end end end end end end.
+    end end end end end.
 
 End Hierarchy.
 
